@@ -83,6 +83,31 @@ CHECKS = {
    text="Expression trees that reuse a small identifier pool in different letter case, as function and as variable, quoted and inside strings are printed four ways; VariableNames() must be the identifiers in variable position in first-occurrence order and automatic variables must leave exactly one entry per name while keeping pre-existing entries and values; resolution (first added wins, case-insensitive) and missing-name errors are enumerated; every sequence of 5 (quick) / 6 (thorough) collection operations plus random longer ones is compared with an ordered-list model after every step, for variable and function collections. A template sub-check does the same for mustache variable names.",
    note="Out-of-range indexes for Get/Remove are preconditions; identifiers outside ASCII/Latin-1/Cyrillic are not generated.",
    ref="DESIGN.md §3 C18"),
+ "C03": dict(
+   technique="runtime monitor: panic/termination/result-xor-error oracle over exhaustive small-scope, grammar-aware hostile and mutated inputs on every entry point, with the H1 loop-progress hook and a supervising process for fatal errors and hangs",
+   text="Every string up to length 3 (quick) / 4 (thorough) over a 26-character alphabet of significant characters, seeded hostile expressions and templates from the grammar generators with character-level mutations, fragment concatenations and a committed corpus are fed to SetExpression/Evaluate (null, boundary-pool and given variables, both managers), SetTemplate/EvaluateWithVariables, six tokenizer configurations under several option sets and the quote states; the monitor turns panics into observations, hook H1 detects a non-advancing tokenizer loop by logical steps, every evaluating call must yield exactly one of result/error, and a supervisor process re-runs in-flight cases after a fatal error or stall.",
+   note="No reference value is needed, so any generator is sound. Documented precondition panics of configuration APIs (invalid separators, empty variable names passed by the caller) are out of scope.",
+   ref="DESIGN.md §3 C03"),
+ "C05": dict(
+   technique="runtime monitor: fresh-instance differential over all ordered pairs and random sequences of inputs on reused instances; has-next interleaving patterns",
+   text="Twelve components (four tokenizers option-free and with option sets, expression parser and calculator, mustache parser and template) are fed every ordered pair of their input pools (77 tokenizer inputs with every multi-character symbol, token class, unterminated literal, push-back position; 48 expressions; 30 templates) and seeded longer sequences with aborted iterations on one reused instance; after every input the observable product must equal that of a freshly constructed instance. All 39 patterns of 0-2 HasNextToken calls before NextToken are compared with a plain loop.",
+   note="The reference is the same code in a fresh instance, which is what the statement defines. Default variable collections accumulate by design and are not compared; evaluation uses an explicit collection.",
+   ref="DESIGN.md §3 C05"),
+ "C09": dict(
+   technique="runtime monitor: round-trip oracle (harness writer -> real CsvTokenizer -> regrouping) over exhaustive small tables and random tables x configurations x line endings",
+   text="Tables are written by the harness' own writer (raw or quote-encoded fields, configured separators, one of four line endings), tokenized by a real CsvTokenizer configured accordingly with string decoding on, and regrouped; the rows and fields must come back exactly and every line ending must be one end-of-line token. Exhaustive: all 1x1 tables with fields up to length 4/5 over a 9-character alphabet, all 1x2/2x1 tables of fields up to length 2, all 2x2 tables of fields up to length 1, for two configurations; random tables up to 6x6 for six configurations including separators and quotes above U+00FF.",
+   note="Characters at or above U+FFFF, mixed line-end styles and the table whose text is empty are don't-care.",
+   ref="DESIGN.md §3 C09"),
+ "C10": dict(
+   technique="runtime monitor: reference renderer over generated template trees, malformed-by-construction mutants, and a three-valued reference classifier over exhaustive lexeme strings",
+   text="Template trees (text of all Unicode, variables, escaped variables, comments, nested sections in every spelling, blanks inside tags, names in ASCII/Latin-1/Cyrillic and random case) are printed, set on a real MustacheTemplate and rendered under maps with present/absent/empty values; the result must equal the reference rendering of the tree. Well-formed printings are made malformed in exactly one of five ways and must be rejected. Every sequence of up to 5 (quick) / 7 (thorough) template lexemes is classified well-formed / malformed / not determined by an independent classifier and checked accordingly.",
+   note="Known finding: quote characters inside a comment body (known_findings.json). Don't-care zones are listed in DESIGN.md §3 C10.",
+   ref="DESIGN.md §3 C10"),
+ "C19": dict(
+   technique="Go race detector over concurrent evaluations of shared parsed instances with the H3 yield hook, plus snapshot and sequential-result monitors",
+   text="Compiled expressions and templates are evaluated sequentially under several variable sets in permuted orders (results must repeat; deep snapshots of program, constants, variable values and function table must not change) and then by 2, 4 or 16 goroutines sharing the instance, each with its own variables, while hook H3 yields at seeded steps inside the evaluations; every concurrent result must equal the sequential one, the race detector log must stay empty, and the run reports how many distinct interleavings of evaluation steps it observed (fewer than 50/100 makes it inconclusive). A third workload runs 16 goroutines each owning its own tokenizers, calculator and template.",
+   note="The race detector and H3 see only the schedules that occurred; the claim is 'no race and no deviation in the executions observed'.",
+   ref="DESIGN.md §3 C19"),
 }
 
 NOT_YET = {}
